@@ -8,6 +8,8 @@ C19's subject), so that every comparator row and both membership directions are 
 """
 from __future__ import annotations
 
+import itertools
+
 from .. import qast as Q
 from ..common import (X, leaves_single, REPRESENTATIVE_4, REPRESENTATIVE_8, to_fn_form, root_kind, grid_world,
                       eval_entity, diff_lists, labels, is_exc)
@@ -43,8 +45,20 @@ def cases(tier, inst):
             yield (t, style, "op")
         yield (to_fn_form(t), "let", "fn")
         yield (t, "let", "noentity")          # an(x, condition) without entity()
+        if t[0] in ("and", "or"):
+            # sub-expressions such as e = x.p written once and reused in both operands (no negation: not_() inverts its
+            # operand in place, what a reused-and-negated expression object means is not specified anywhere)
+            yield (t, "let", "shared")
+            yield (t, "lettuple", "op")
+            yield (t, "letgen", "op")
         if t[0] == "and":
             yield (t, "let", "multi")
+    # three operands given to and_() / or_() / entity()
+    for a, b, c in itertools.product(REPRESENTATIVE_8 if tier == "thorough" else REPRESENTATIVE_4, repeat=3):
+        yield (("andf", a, b, c), "let", "op")
+        yield (("orf", a, b, c), "let", "op")
+        yield (("andf", a, b, c), "let", "multi3")
+        yield (("orf", a, ("andf", b, c), a), "from", "shared")
     reps = REPRESENTATIVE_4 if tier == "quick" else REPRESENTATIVE_8
     for t in trees_by_depth(reps, 2):
         if Q.depth(t) < 2:
@@ -62,7 +76,7 @@ def cases(tier, inst):
 
 def query_of(case):
     tree, style, form = case
-    conds = (tree[1], tree[2]) if form == "multi" else (tree,)
+    conds = (tree[1], tree[2]) if form == "multi" else (tuple(tree[1:]) if form == "multi3" else (tree,))
     return ("Q", "an", "entity0" if form == "noentity" else "entity", X, conds, (("x", style, "Item", "D"),))
 
 
@@ -72,7 +86,7 @@ def run_case(case, inst):
 
     def body():
         world = build_world(WSPEC, inst)
-        got = eval_entity(q, world, inst)
+        got = eval_entity(q, world, inst, share_terms=(case[2] == "shared"))
         exp = [env["x"] for env in Q.Ref(world, inst).solutions(q)]
         return got, exp, len(world["D"])
 
